@@ -13,6 +13,7 @@ import (
 	"net"
 	"net/http"
 	"net/url"
+	"strings"
 	"sync"
 	"testing"
 	"time"
@@ -33,7 +34,8 @@ type c18Op struct {
 }
 
 type c18Scenario struct {
-	Keys []string `json:"keys"` // URIs
+	Keys  []string `json:"keys"`            // URIs
+	Hosts []string `json:"hosts,omitempty"` // Host header of each key (parallel to Keys; c18.test when absent)
 	Ops  []c18Op  `json:"ops"`
 }
 
@@ -53,11 +55,19 @@ func genC18e2e(t *rapid.T) c18Scenario {
 	sc := c18Scenario{}
 	n := rapid.IntRange(2, 4).Draw(t, "nKeys")
 	seen := map[string]bool{}
+	// the Host header is part of the key exactly as the client sent it
+	hosts := []string{"c18.test", "c18.test", "C18.Test", "c18.TEST", "c18.test:80", "Static.C18.test"}
 	for len(sc.Keys) < n {
 		u := rapid.SampledFrom(c18URIs).Draw(t, "uri")
-		if !seen[u] {
-			seen[u] = true
+		if len(sc.Keys) > 0 && rapid.IntRange(0, 2).Draw(t, "twin") == 0 {
+			// the same URI as an earlier key under a host that differs (often only in case)
+			u = sc.Keys[rapid.IntRange(0, len(sc.Keys)-1).Draw(t, "twinOf")]
+		}
+		h := rapid.SampledFrom(hosts).Draw(t, "host")
+		if !seen[h+" "+u] {
+			seen[h+" "+u] = true
 			sc.Keys = append(sc.Keys, u)
+			sc.Hosts = append(sc.Hosts, h)
 		}
 	}
 	m := rapid.IntRange(4, 14).Draw(t, "nOps")
@@ -128,6 +138,12 @@ func execC18e2e(sc c18Scenario) *vstat.Outcome {
 		c18Up.mu.Unlock()
 	}()
 	host := "c18.test"
+	hostOf := func(key int) string {
+		if key < len(sc.Hosts) && sc.Hosts[key] != "" {
+			return sc.Hosts[key]
+		}
+		return host
+	}
 	uriOf := func(key int) string { return fmt.Sprintf("/c18-%d", n) + sc.Keys[key] }
 	// the request-URI as the Go client puts it on the wire (what pike builds the key from)
 	wireURI := func(uri string) string {
@@ -147,7 +163,7 @@ func execC18e2e(sc c18Scenario) *vstat.Outcome {
 		case "c2":
 			name = names[1]
 		}
-		cacheKey := "GET " + host + " " + wireURI(uriOf(key))
+		cacheKey := "GET " + hostOf(key) + " " + wireURI(uriOf(key))
 		if wrong {
 			cacheKey += "x"
 		}
@@ -183,7 +199,7 @@ func execC18e2e(sc c18Scenario) *vstat.Outcome {
 		what := fmt.Sprintf("op %d %+v", i, op)
 		switch op.K {
 		case "get":
-			r := do(c18Cl, reqSpec{Method: "GET", Addr: addrs[op.Srv], Host: host, URI: uriOf(op.Key), Header: http.Header{"X-Spec": []string{spec}}})
+			r := do(c18Cl, reqSpec{Method: "GET", Addr: addrs[op.Srv], Host: hostOf(op.Key), URI: uriOf(op.Key), Header: http.Header{"X-Spec": []string{spec}}})
 			if r.Err != "" || r.Code != 200 {
 				out.Violate("C18", "request", "%s: err %q status %d", what, r.Err, r.Code)
 				continue
@@ -279,6 +295,16 @@ func execC18e2e(sc c18Scenario) *vstat.Outcome {
 	}
 	if reqAfterPurge > 0 {
 		out.Class("request_after_purge")
+	}
+	for i, h := range sc.Hosts {
+		if h != strings.ToLower(h) {
+			out.Class("key_with_upper_case_host")
+		}
+		for j := 0; j < i; j++ {
+			if sc.Keys[i] == sc.Keys[j] && strings.EqualFold(h, sc.Hosts[j]) {
+				out.Class("keys_differing_in_host_case_only")
+			}
+		}
 	}
 	return out
 }
